@@ -165,8 +165,12 @@ theorem applyHolding_step (c : DB) (rates avgs : TMap) (fromH : Nat) :
   have c2 := recordPegRequests_step ok
   unfold applyHolding; step_tac
 
-theorem applyFactoidBlock_step (rcd : Addr) (fcts : List FctTx) : Step R (applyFactoidBlock P h rcd fcts) := by
+theorem applyFct_step (rcd : Addr) (f : FctTx) : Step R (applyFct P h rcd f) := by
   prims ok
+  unfold applyFct; step_tac
+
+theorem applyFactoidBlock_step (rcd : Addr) (fcts : List FctTx) : Step R (applyFactoidBlock P h rcd fcts) := by
+  have c1 := applyFct_step ok rcd
   unfold applyFactoidBlock; step_tac
 
 theorem applyGradedOPR_step (oh ts : Int) (ws : List OprW) : Step R (applyGradedOPR P oh ts ws) := by
